@@ -1,5 +1,5 @@
 \* thorough: depth <= 3 over two atoms (80 k trees), flat formulas with <= 4 operators (346 k)
-CONSTANTS TreeDepth = 3 Atoms = {"a", "b"} FlatOps = 4
+CONSTANTS TreeDepth = 3 Atoms = {"a", "b"} FlatOps = 4 Variants = 3
 SPECIFICATION Spec
 INVARIANTS RoundTrip FlatObeysRanks
 CHECK_DEADLOCK FALSE
